@@ -233,8 +233,13 @@ impl BlockStateTracker {
             let map = Self::map();
             if let Ok(r) = map.read() {
                 if let Some(b) = r.get(&block_id) {
-                    b.is_checkpointed.store(true, Ordering::Release);
-                    Some(b.file_path.clone())
+                    // Count a block once: readers pass a consumed block again and again (peeks,
+                    // polls at a block end, recovery), and the per-file counter must not grow.
+                    if b.is_checkpointed.swap(true, Ordering::AcqRel) {
+                        None
+                    } else {
+                        Some(b.file_path.clone())
+                    }
                 } else {
                     None
                 }
